@@ -128,6 +128,10 @@ class HandlerModel:
                 set_temp_fun(it, chart, parent(s))
                 return st['SUPER']
             if k == S['ENTRY_SIGNAL']:
+                if getattr(self.w, 'faulty_super', False):
+                    # (C24) a state that gives no status to the super search is never entered: by induction over the
+                    # history no state of the active configuration is such a state
+                    c.prove('%s:monitor/entered-state-answers-the-super-search' % where, z3.Not(faulty(s)), tags=('C24',))
                 c.prove('%s:monitor/entry-is-child-of-current' % where, parent(s) == g['g_cur'], tags=('C01', 'C03'))
                 c.prove('%s:monitor/entry-towards-goal' % where, encloses(s, g['g_goal']), tags=('C01', 'C03'))
                 _turn(c)
@@ -446,7 +450,9 @@ def trans_post(it, self, tp, S, T, n_ex0, ip):
             ('nothing-entered', z3.And(g['g_phase'] != ENTERING, g['g_n_en'] == 0, g['g_n_in'] == 0,
                                        z3.Not(g['g_turned']), g['g_goal'] == T)),
             ('exits-counted', g['g_n_ex'] - n_ex0 == depth(S) - depth(L))] + (
-        [('target-answers-the-super-search', z3.Not(faulty(T)))] if getattr(it.w, 'faulty_super', False) else [])
+        [('target-answers-the-super-search', z3.Not(faulty(T))),
+         ('entry-path-states-answer-the-super-search', answered(T, depth(L), depth(T)))]
+        if getattr(it.w, 'faulty_super', False) else [])
 
 
 def trans_contract(it, fn, args, kwargs):
@@ -510,6 +516,9 @@ def trans_specs():
                     z3.And(0 <= _k, _k <= ip), z3.Select(items, _k) != S), patterns=[z3.Select(items, _k)]))),
                 ('t-is-source-parent', z3.And(env['t'].e == parent(S), env['s'].e == S)),
                 ('every-state-so-far-answered-the-super-search', z3.Not(g['g_bad'])),
+                ('path-states-answered', z3.And(z3.Implies(r != IGNORED, answered(T, depth(T) - ip - 1, depth(T))),
+                                                z3.Implies(r == IGNORED, answered(T, depth(T) - ip, depth(T))))
+                 if getattr(it.w, 'faulty_super', False) else z3.BoolVal(True)),
                 ('monitor-untouched', z3.And(g['g_cur'] == S, g['g_n_ex'] == c.pyghost['n_ex0'], g['g_n_en'] == 0,
                                              g['g_n_in'] == 0, g['g_phase'] != ENTERING, z3.Not(g['g_turned']),
                                              g['g_goal'] == T))]
@@ -817,6 +826,11 @@ def weak_axioms():
 s_w = z3.Const('s!w', Ref)
 
 
+def answered(x, lo, hi):
+    """every ancestor of x at a depth in (lo, hi] gave a status to the super search"""
+    return z3.ForAll([_d], z3.Implies(z3.And(lo < _d, _d <= hi), z3.Not(faulty(anc(x, _d)))), patterns=[faulty(anc(x, _d))])
+
+
 def weak_specs():
     P = 'hsm.HsmEventProcessor.init'
 
@@ -877,6 +891,8 @@ def weak_specs():
                                                                     anc(i, _d) != out), patterns=[anc(i, _d)])),
                 ('bad-exactly-when-the-target-is-not-inside',
                  g['g_bad'] == z3.Or(z3.Not(strictly_encloses(out, i)), stuck)),
+                ('consulted-states-answered', z3.Or(stuck, answered(i, depth(i) - idx, depth(i)))
+                 if getattr(it.w, 'faulty_super', False) else z3.BoolVal(True)),
                 ('monitor-untouched', z3.And(g['g_cur'] == out, g['g_goal'] == i, g['g_n_ex'] == 0,
                                              g['g_phase'] == ENTERING, is_state(out))),
                 ('state-fun-untouched', state_fun(it, self) == c.pyghost['state_fun0'])]
@@ -904,6 +920,8 @@ def weak_specs():
                                             patterns=[z3.Select(items, _k)])),
                 ('target-below-outermost', strictly_encloses(out, i)),
                 ('goal', g['g_goal'] == i),
+                ('path-states-answered', answered(i, depth(out), depth(i)) if getattr(it.w, 'faulty_super', False)
+                 else z3.BoolVal(True)),
                 ('no-bad-init-so-far', z3.Not(g['g_bad'])),
                 ('tpath-capacity', z3.And(n == c.to_int(env['max_index']) + 1, n >= 1)),
                 ('no-exit-so-far', z3.And(g['g_n_ex'] == 0, g['g_phase'] == ENTERING)),
@@ -954,6 +972,7 @@ def weak_specs():
                                                      z3.And(ip + 1 > depth(i), f == TOP)), ip <= depth(i) + 1)),
                 ('consulted-states-answered', z3.And(z3.Or(stuck, z3.Not(faulty(i))), z3.Not(faulty(t))) if fs
                  else z3.BoolVal(True)),
+                ('path-states-answered', z3.Or(stuck, answered(i, depth(i) - ip - 1, depth(i))) if fs else z3.BoolVal(True)),
                 ('bad-exactly-when-the-target-is-not-inside-or-silent',
                  g['g_bad'] == z3.Or(z3.Not(strictly_encloses(t, i)), stuck)),
                 ('entry-path', z3.ForAll([_k], z3.Implies(z3.And(0 <= _k, _k <= ip, _k <= depth(i)),
@@ -988,7 +1007,8 @@ def weak_specs():
                 ('goal', z3.And(g['g_goal'] == i, z3.Select(items, 0) == i)),
                 ('capacity', z3.And(n >= 3, N < n, n == c.to_int(env['max_index']) + 1)),
                 ('monitor', z3.And(g['g_answer'] == 1, g['g_n_in'] >= 1, good(g)))] + (
-            [('init-target-answers-the-super-search', z3.Not(faulty(i)))] if getattr(it.w, 'faulty_super', False) else [])
+            [('init-target-answers-the-super-search', z3.Not(faulty(i))),
+             ('path-states-answered', answered(i, depth(t), depth(i)))] if getattr(it.w, 'faulty_super', False) else [])
     s6 = LoopSpec(inv6, lambda it, env: [(temp_of(it, env['self']), 'fun')], lambda it, env: it.c.to_int(env['ip']) + 1,
                   'dispatch-init-enter')
     s6.ghost_modifies = ['g_cur', 'g_phase', 'g_n_en', 'g_turn', 'g_turned']
